@@ -40,6 +40,13 @@ POOL_LIST = ["mk"]
 SHADOW = ["size", "contains"]
 POOL = POOL_INT + POOL_BOOL + POOL_LIST + SHADOW + ["k"]
 CKINDS = ["mod", "main", "nested", "lambda", "obj", "bound", "partial", "wraps", "ev"]
+# round 2: callables that only LOOK like something `func_name` could name by dotted text (identity vs. equality / name):
+#   wrapsev  functools.wraps(<function reachable from celpy.evaluation's globals>)(wrapper): copied __module__/__qualname__/__wrapped__
+#   eqobj    callable object that compares equal to everything and carries the __module__/__qualname__ of a built-in
+#   qualfn   nested def whose __module__/__qualname__ were set to those of a built-in
+# the model has no separate kind for them: they are callables the transpiled program must look up in the activation
+LOOKALIKE = {"wrapsev": "wraps", "eqobj": "obj", "qualfn": "nested"}
+DICT_ONLY = ("partial", "wraps") + tuple(LOOKALIKE)
 NAMED_KINDS = ["mod", "main", "nested", "lambda", "obj", "bound", "ev"]      # can carry a chosen __name__ for list style
 WRAPS_NAME = "function_size"      # __name__ of a functools.wraps(celpy.evaluation.function_size) wrapper
 
@@ -78,9 +85,19 @@ def _setup_modules():
     m = types.ModuleType("celpy.c14_direct_probe")
     m.__dict__["TABLE"] = {}
     exec("".join(f"def {n}(*a):\n    return TABLE[{n!r}](a)\n" for n in POOL), m.__dict__)
+    # functions that must NEVER be applied: the targets whose name a look-alike callable carries
+    exec("".join(f"def target_{n}(*a):\n    return TARGET({n!r}, a)\n" for n in POOL), m.__dict__)
+    m.__dict__["TARGET"] = _wrong_target
     sys.modules[m.__name__] = m
     celpy.c14_direct_probe = m
     _STATE["ev"] = m
+
+
+def _wrong_target(name, args):
+    """a function whose dotted name a look-alike callable carries was applied instead of the supplied callable"""
+    from celpy import celtypes
+    REC.append(("WRONG-OBJECT:" + name, tuple(_canon_arg(a) for a in args)))
+    return celtypes.IntType(-999)
 
 
 def _py_val(v):
@@ -201,6 +218,37 @@ def _make_callable(spec: Dict[str, Any], slot: int):
         def wrapper(*a):
             return body(a)
         return wrapper
+    if ckind == "wrapsev":
+        @functools.wraps(getattr(_STATE["ev"], "target_" + key))
+        def wrapper2(*a):
+            return body(a)
+        return wrapper2
+    if ckind == "eqobj":
+        class EqualToAll:
+            __module__ = "celpy.evaluation"
+            __qualname__ = "function_size"
+
+            def __call__(self, *a):
+                return body(a)
+
+            def __eq__(self, other):
+                return True
+
+            def __ne__(self, other):
+                return False
+
+            def __hash__(self):
+                return 0
+        o = EqualToAll()
+        o.__qualname__ = "function_size"
+        o.__module__ = "celpy.evaluation"
+        return o
+    if ckind == "qualfn":
+        def renamed(*a):
+            return body(a)
+        renamed.__module__ = "celpy.evaluation"
+        renamed.__qualname__ = "function_contains"
+        return renamed
     raise RuntimeError(ckind)
 
 
@@ -219,6 +267,10 @@ def spec_pyname(spec) -> Optional[str]:
         return pn or "meth"
     if ck == "wraps":
         return WRAPS_NAME
+    if ck == "wrapsev":
+        return "target_" + spec["key"]
+    if ck == "qualfn":
+        return "renamed"
     return None
 
 
@@ -289,7 +341,7 @@ def lean_beh(beh) -> str:
 def lean_prog(p) -> str:
     out = [p["runner"], p["style"], str(len(p["fns"]))]
     for s in p["fns"]:
-        out += [s["key"], spec_pyname(s) or "-", s["ckind"], lean_beh(s["beh"])]
+        out += [s["key"], spec_pyname(s) or "-", LOOKALIKE.get(s["ckind"], s["ckind"]), lean_beh(s["beh"])]
     out.append(to_lean(p["expr"]))
     return " ".join(out)
 
@@ -620,6 +672,10 @@ class Gen:
 
     def __init__(self, rng: random.Random, fns: Dict[str, List[Any]], clean: bool = False, unbound: bool = True):
         self.rng, self.fns, self.clean, self.unbound = rng, fns, clean, unbound
+        # sub-expressions generated so far, by type: (depth of enclosing macros, tree).  Re-using one makes the SAME call
+        # (same function, equal evaluated arguments) reached more than once in one evaluation.
+        self.seen: Dict[str, List[Tuple[int, Any]]] = {"int": [], "bool": []}
+        self.reuse = 0.12
         self.ints = [n for n in fns if n in POOL_INT or n in ("size", "k")]
         self.bools = [n for n in fns if n in POOL_BOOL or n == "contains"]
         self.lists = [n for n in fns if n in POOL_LIST]
@@ -633,7 +689,30 @@ class Gen:
             return ["meth", name, args[0], args[1:]]
         return ["call", name, args]
 
+    def again(self, ty, depth):
+        """an earlier sub-expression of this type that is well-scoped here, or None"""
+        pool = [t for (dp, t) in self.seen[ty] if dp <= depth]
+        if pool and self.rng.random() < self.reuse:
+            return self.rng.choice(pool)
+        return None
+
     def int_(self, d, depth):
+        t = self.again("int", depth)
+        if t is None:
+            t = self.int_new(d, depth)
+            if t[0] in ("call", "meth"):
+                self.seen["int"].append((depth, t))
+        return t
+
+    def bool_(self, d, depth):
+        t = self.again("bool", depth)
+        if t is None:
+            t = self.bool_new(d, depth)
+            if t[0] in ("call", "meth"):
+                self.seen["bool"].append((depth, t))
+        return t
+
+    def int_new(self, d, depth):
         r = self.rng.random()
         if d <= 0 or r < 0.25:
             if depth and self.rng.random() < 0.5:
@@ -650,7 +729,7 @@ class Gen:
             return ["add", self.int_(d - 1, depth), self.int_(d - 1, depth)]
         return ["cond", self.bool_(d - 1, depth), self.int_(d - 1, depth), self.int_(d - 1, depth)]
 
-    def bool_(self, d, depth):
+    def bool_new(self, d, depth):
         r = self.rng.random()
         if d <= 0 or r < 0.15:
             return B(self.rng.random() < 0.5)
@@ -707,7 +786,7 @@ def specs_for(rng: random.Random, table, style: str, kinds: List[str]) -> List[D
     rng.shuffle(spare)
     for name, beh in table.items():
         ck = rng.choice(kinds)
-        if style == "L" and ck in ("partial", "wraps"):
+        if style == "L" and ck in DICT_ONLY:
             ck = "nested"
         spec = {"key": name, "ckind": ck, "beh": beh}
         if style == "L" or rng.random() < 0.3:
@@ -754,9 +833,9 @@ def shape_cases() -> List[Dict[str, Any]]:
     cases = []
     behs = {"ok": ["sum", 100], "errv": ["errv"], "ve": ["raise", "ValueError"], "te": ["raise", "TypeError"]}
     for bname, beh in behs.items():
-        for ck in CKINDS:
+        for ck in CKINDS + list(LOOKALIKE):
             for style in ("L", "D"):
-                if style == "L" and ck in ("partial", "wraps"):
+                if style == "L" and ck in DICT_ONLY:
                     continue
                 fns = [{"key": "f", "ckind": ck, "beh": beh, "pyname": "f"} if ck in NAMED_KINDS else {"key": "f", "ckind": ck, "beh": beh},
                        {"key": "g", "ckind": "nested", "beh": ["sum", 7], "pyname": "g"},
@@ -781,6 +860,62 @@ def shape_cases() -> List[Dict[str, Any]]:
                                ["all", L(1, 2), ["exists", L(7), ["lt", ["call", "f", [["v", 0], ["v", 1]]], I(0)]]]]
                 for i, e in enumerate(shapes):
                     cases += both_runners("shape", style, fns, e, bind=(i + len(ck)) % 2 == 0)
+    return cases
+
+
+def repeat_cases() -> List[Dict[str, Any]]:
+    """"once per call site REACHED": the same function reached again with equal arguments — in one evaluation (two sites, a
+    macro body), in a second evaluation of the same program, in another program that binds the name to another function.
+    Every application must happen (a memo of results keyed by name / arguments / types would skip some) and must be
+    the application of THIS program's function."""
+    cases = []
+    F1, F0 = ["call", "f", [I(1)]], ["call", "f", []]
+    for bname, beh in {"ok": ["sum", 100], "errv": ["errv"], "ve": ["raise", "ValueError"], "neg": ["errneg", 10]}.items():
+        for ck, style in (("nested", "D"), ("mod", "L"), ("obj", "D"), ("bound", "L"), ("main", "D")):
+            fns = [{"key": "f", "ckind": ck, "beh": beh, "pyname": "f"},
+                   {"key": "g", "ckind": "lambda", "beh": ["sum", 7], "pyname": "g"},
+                   {"key": "p", "ckind": "nested", "beh": ["pos"], "pyname": "p"}]
+            shapes = [
+                ["add", F1, F1], ["add", F0, F0], ["lt", F1, F1], ["add", ["add", F1, F1], F1],
+                ["add", ["call", "f", [I(1), I(2)]], ["call", "f", [I(1), I(2)]]],
+                ["add", ["meth", "f", I(1), [I(2)]], ["call", "f", [I(1), I(2)]]],            # the two syntaxes of one call
+                ["add", ["meth", "f", I(1), []], ["meth", "f", I(1), []]],
+                ["add", F1, ["call", "f", [B(True)]]],                                        # 1 == True in Python
+                ["add", ["call", "f", [I(0)]], ["call", "f", [B(False)]]],
+                ["add", F1, ["call", "g", [I(1)]]],                                           # equal arguments, another function
+                ["add", ["call", "g", [I(1)]], ["call", "g", [I(1)]]],
+                ["add", ["call", "f", [F1]], F1],
+                ["add", ["call", "f", [L(1, 2)]], ["call", "f", [L(1, 2)]]],                  # unhashable arguments
+                ["add", ["call", "f", [L(1, 2)]], ["call", "f", [L(3, 4)]]],
+                ["or", ["call", "p", [I(1)]], ["call", "p", [I(1)]]], ["and", ["call", "p", [I(-1)]], ["call", "p", [I(-1)]]],
+                ["or", ["lt", F1, I(0)], ["lt", F1, I(0)]],
+                ["all", L(2, 2, 2), ["lt", ["call", "f", [["v", 0]]], I(1000)]],
+                ["exists", L(3, 3), ["lt", ["meth", "f", ["v", 0], []], I(0)]],
+                ["all", L(1, 2), ["lt", ["call", "f", [I(5)]], I(1000)]],                     # body does not depend on the variable
+                ["lt", ["call", "f", [I(-1)]], ["call", "f", [I(-1)]]],
+            ]
+            if bname == "ok":
+                shapes += [["map", L(5, 5, 5), ["call", "f", [["v", 0]]]], ["map", L(1, 2), ["call", "f", [I(7)]]],
+                           ["map", L(4, 4), ["add", ["meth", "f", ["v", 0], []], ["call", "f", [["v", 0]]]]]]
+            for i, e in enumerate(shapes):
+                cases += both_runners("repeat", style, fns, e, bind=(i % 3 == 0))
+            # the same program evaluated again: every application happens again
+            for rn in ("I", "C"):
+                for e in (["add", F1, ["call", "g", [I(2)]]], ["all", L(1, 2), ["lt", ["call", "f", [["v", 0]]], I(1000)]]):
+                    p1 = {"runner": rn, "style": style, "fns": fns, "expr": e, "bind": ck == "obj"}
+                    cases.append({"kind": "again", "rel": "same", "progs": [p1, dict(p1, again=True), dict(p1, again=True)]})
+    # the same name, the same arguments, ANOTHER function in the next program (one Environment or two)
+    for share in (True, False):
+        for r1, r2 in itertools.product("IC", "IC"):
+            for st1, st2 in (("D", "D"), ("L", "D"), ("D", "L")):
+                fa = [{"key": "f", "ckind": "nested", "beh": ["sum", 100], "pyname": "f"}, {"key": "h", "ckind": "lambda", "beh": ["sum", 1], "pyname": "h"}]
+                fb = [{"key": "f", "ckind": "mod", "beh": ["sum", 7], "pyname": "f"}]
+                e = ["add", F1, ["call", "f", [I(1), I(2)]]]
+                cases.append({"kind": "rebind", "rel": None, "share_env": share, "progs": [
+                    {"runner": r1, "style": st1, "fns": fa, "expr": e}, {"runner": r2, "style": st2, "fns": fb, "expr": e},
+                    {"runner": r2, "style": st2, "fns": fb, "expr": ["add", ["call", "h", [I(1)]], I(1)]},      # h is unbound now
+                    {"runner": r1, "style": "N", "fns": [], "expr": F1},                                          # … and so is f
+                    {"runner": r1, "style": st1, "fns": fa, "expr": e}]})
     return cases
 
 
@@ -814,11 +949,13 @@ class C14(Prop):
             rng2 = random.Random(rng.random())
             sc = [c for c in sc if rng2.random() < 0.35]
         cases += sc
+        cases += repeat_cases()
         n = 260 if quick else 5000
         for _ in range(n):
             table = random_table(rng)
             style = rng.choice(["L", "D", "D"])
-            kinds = rng.choice([["mod"], ["main"], ["nested", "lambda"], ["obj", "bound"], CKINDS[:-1], ["mod", "main", "nested", "lambda", "obj", "bound"]])
+            kinds = rng.choice([["mod"], ["main"], ["nested", "lambda"], ["obj", "bound"], CKINDS[:-1], ["mod", "main", "nested", "lambda", "obj", "bound"],
+                                ["wraps"] + list(LOOKALIKE)])
             fns = specs_for(rng, table, style, kinds)
             g = Gen(rng, table)
             e = g.bool_(rng.randint(1, 4), 0) if rng.random() < 0.5 else g.int_(rng.randint(1, 4), 0)
@@ -831,7 +968,7 @@ class C14(Prop):
                         {"runner": rn, "style": style, "fns": fns, "expr": to_function(e)},
                         {"runner": rn, "style": style, "fns": fns, "expr": to_method(e)}]})
             elif r < 0.9:       # list vs dict
-                fl = [dict(s, pyname=s["key"], ckind=(s["ckind"] if s["ckind"] not in ("partial", "wraps") else "lambda")) for s in fns]
+                fl = [dict(s, pyname=s["key"], ckind=(s["ckind"] if s["ckind"] not in DICT_ONLY else "lambda")) for s in fns]
                 for rn in ("I", "C"):
                     cases.append({"kind": "binding", "rel": "same", "progs": [
                         {"runner": rn, "style": "L", "fns": fl, "expr": e}, {"runner": rn, "style": "D", "fns": fl, "expr": e}]})
@@ -845,7 +982,8 @@ class C14(Prop):
                         {"runner": r1, "style": st1, "fns": shadow + fns, "expr": probe},
                         {"runner": r2, "style": "N", "fns": [], "expr": probe},
                         {"runner": r2, "style": style, "fns": fns, "expr": e},
-                        {"runner": r1, "style": "D", "fns": shadow[:1], "expr": probe}]})
+                        {"runner": r1, "style": "D", "fns": shadow[:1], "expr": probe},
+                        {"runner": r2, "style": "N", "fns": [], "expr": ["call", fns[0]["key"], [I(1)]]}]})
         # known findings, sampled on purpose (so that a *change* in them is noticed): D42 map keeps error values, D43 direct functions
         gv = {"key": "g", "ckind": "nested", "beh": ["errv"], "pyname": "g"}
         gn = {"key": "g", "ckind": "lambda", "beh": ["errneg", 10], "pyname": "g"}
@@ -882,6 +1020,20 @@ class C14(Prop):
         from celpy.evaluation import CELEvalError
         from .. import celrun
         REC.clear()
+        if p.get("again") and self._last is not None:
+            # evaluate the program object of the previous step once more (same runner object, same activation)
+            try:
+                try:
+                    v = self._last.evaluate({"zz": celpy.celtypes.IntType(1)} if p.get("bind") else {})
+                    val = celrun.canon(v)
+                except CELEvalError:
+                    val = "err"
+            except RecursionError:
+                val = "EXC RecursionError"
+            except Exception as ex:  # noqa
+                val = f"EXC {type(ex).__name__}"
+            return f"{val} | " + ";".join(f"{n}({','.join(a)})" for n, a in REC)
+        self._last = None
         try:
             fobjs = [(s, _make_callable(s, i)) for i, s in enumerate(p["fns"])]
             if p["style"] == "N":
@@ -896,6 +1048,7 @@ class C14(Prop):
                 env = celpy.Environment(runner_class=celrun.RUNNERS[p["runner"]])
             ast = env.compile(to_cel(p["expr"]))
             prog = env.program(ast, functions=functions)
+            self._last = prog
             REC.clear()
             try:
                 # with bindings the runners work on a *clone* of the activation (Activation.clone copies the function chain)
@@ -913,8 +1066,11 @@ class C14(Prop):
             pass
         return f"{val} | {log}"
 
+    _last = None
+
     def impl(self, c):
         envs = {} if c.get("share_env") else None
+        self._last = None
         return " ## ".join(self.run_prog(p, envs) for p in c["progs"])
 
     # ---- model -------------------------------------------------------------------------------------
